@@ -372,6 +372,13 @@ func compare(i int, r Req, p *Prog, status int, hs []wire.KV, body []byte, trail
 	if status != p.Status {
 		return fmt.Sprintf("%s: decoded status %d", id, status)
 	}
+	// "framing matching the bytes sent": a 1xx or 204 response has no body and carries neither framing field (RFC
+	// 7230 3.3.1, 3.3.2: MUST NOT); a client that believes a stray Transfer-Encoding: chunked waits for a chunk
+	if (status/100 == 1 || status == 204) && !p.SetCLHeader {
+		if cl, te := wire.Get(hs, "Content-Length"), wire.Get(hs, "Transfer-Encoding"); len(cl) > 0 || len(te) > 0 {
+			return fmt.Sprintf("%s: a %d response announces a body it does not have: Content-Length %q, Transfer-Encoding %q", id, status, cl, te)
+		}
+	}
 	want := expectBody(r, p)
 	if !bytes.Equal(body, want) {
 		d := 0
